@@ -1,2 +1,11 @@
 import P2P.Props.C07
-#print axioms P2P.Props.C07.placeholder
+#print axioms P2P.Props.C07.read_every_atom_line
+#print axioms P2P.Props.C07.short_line_same
+#print axioms P2P.Props.C07.group_complete
+#print axioms P2P.Props.C07.group_error_only_chain_limit
+#print axioms P2P.Props.C07.dedupe_first
+#print axioms P2P.Props.C07.dropWater_exact
+#print axioms P2P.Props.C07.blank_line_witness
+#print axioms P2P.Props.C07.repeated_end_witness
+#print axioms P2P.Props.C07.drop_water_witness
+#print axioms P2P.Props.C07.model_witness
